@@ -20,7 +20,7 @@ CLAIMS = {
          "rayon modelled, not verified; KNOWN FINDING KF1 (narrowly attributed, see known_findings.json)",
          "invariant induction + differential correspondence", "5 C01"),
  "C02": ("proof: C02_dependencies_placed_in_front for all programs (invariant I6: scan invariant over pending dependencies); tie: S1 with "
-         "oracle `deps_ordered` on every real layout", "that stage/group order implies run order is the executor model's part",
+         "oracle `deps_ordered` on every real layout, also on builders used on after rejected calls (C02_recovered_builder_orders_dependencies)", "that stage/group order implies run order is the executor model's part",
          "invariant induction + differential correspondence", "5 C02"),
  "C03": ("proof: C03_barrier_separates for any pre/post programs, barrier idempotence, thread-locals unaffected; tie: S1 with barriers "
          "at every position, oracle `barriers` on every real layout", "stage order = run order is the executor model's part",
@@ -155,7 +155,10 @@ CLAIMS = {
          "invariant induction + differential correspondence", "5 C17"),
  "C18": ("proof: C18_builder_total_and_errors_exact: for programs of any length and nesting the model builder fails exactly when the "
          "name-bookkeeping specification says so, with that error; no capacity/index/unwrap/overflow/unreachable error reachable "
-         "(params_ok re-proved for the constants in the source); tie: S1 incl. malformed stream, outcome + quoted name of every call",
+         "(params_ok re-proved for the constants in the source); C18_rejected_registration_leaves_no_trace: a builder used on after caught "
+         "panics (model plan_rec: the rejected call only consumes its id) has exactly the plan of the accepted registrations, by a "
+         "simulation up to an injective renaming of ids, and meets every plan oracle; tie: S1 incl. malformed stream, outcome + quoted "
+         "name of every call, and recovery mode (every rejected call caught, same builder used on, compared with plan_rec)",
          "panic message text is compared by the harness (prefix + quoted name)", "induction on program size + differential correspondence", "5 C18"),
  "C19": ("proof: C19_plan_invariant_under_renaming_relabelling_and_list_order — one simulation theorem over all registration programs "
          "(any length and nesting): for every injective relabelling phi of resources, every injective renaming rho of systems that "
